@@ -65,7 +65,7 @@ PROPS = {
         "min_evals": {"quick": 450000, "thorough": 6000000},
         "rule": ("random Mp4Config/TrackConfig values over the documented domain followed by a short random sample history, plus the full "
                  "46 x 13 x 7 AAC (object type, frequency index, channel configuration) grid and three-letter languages (every 7th quick, all "
-                 "26^3 thorough); mux, reopen with the real reader, compare every accessor with the configuration and the durations with the exact "
+                 "26^3 thorough); mux, reopen with the real reader (every other output through a source that returns short reads), compare every accessor with the configuration and the durations with the exact "
                  "rational. Distinct = history shape as in C01 (non-trivial: >= 2 samples on a track)."),
         "assumptions": [
             "documented domain: timescales >= 1, SPS/PPS >= 4 bytes, lowercase three-letter languages, any brands/dimensions/bitrate",
@@ -138,7 +138,7 @@ PROPS = {
         "death_is_violation": True,
         "min_evals": {"quick": 250000, "thorough": 3000000},
         "rule": ("fragmented movies are synthesised by the reference encoder: 1-6 fragments, 1-3 tracks, 1-3 track fragments per movie fragment "
-                 "(also two of the same track), 0-40 samples per run, base-data-offset explicit / default-base-is-moof / neither, tfhd default duration "
+                 "(also two of the same track), 0-40 samples per run (every 4000th movie: up to 1500), track fragments without any run box, base-data-offset explicit / default-base-is-moof / neither, tfhd default duration "
                  "or not, per-sample durations or not, composition offsets or not, tfdt v0/v1 (values beyond 2^32), data_offset absent / positive / "
                  "negative, trex defaults, optional styp/mehd; exhaustive over the 3 x 2^6 flag lattice for 1-2 fragments x 0-2 samples. Each movie is "
                  "read both as one stream and as init segment + media segment (read_fragment_header) and every sample's offset, bytes, start time, "
@@ -192,9 +192,11 @@ PROPS = {
         "min_evals": {"quick": 600000, "thorough": 12000000},
         "rule": ("for each of 48 box types (plus BoxHeader across the 2^32 boundary) the shape space - version 0/1, every combination of flag bits "
                  "gating optional fields (2^5 for tfhd, 2^6+cts for trun), optional children present/absent, list lengths 0/1/2/3/17 - is enumerated "
-                 "exhaustively and each shape is filled with boundary-biased random field values (6 draws per shape quick, 60 thorough); 0-2 random "
-                 "sibling boxes follow the box. Checks: write_box returns box_size() = bytes written = header size field, header fourcc is the type's "
-                 "own code; decoding (BoxHeader::read + read_box) yields an equal value and leaves the stream exactly at the box end; reference and "
+                 "exhaustively and each shape is filled with boundary-biased random field values (1200 draws per shape quick, 12 000 thorough); one draw "
+                 "in 32 is in scale mode (lists of 85-4097 entries, parameter sets up to 65 535 bytes, 300 NAL units per array, payloads up to 70 000 "
+                 "bytes); 0-2 random sibling boxes follow the box. Checks: write_box returns box_size() = bytes written = header size field, header "
+                 "fourcc is the type's own code; decoding (BoxHeader::read + read_box) yields an equal value and leaves the stream exactly at the box "
+                 "end, from a stream that fills every read and from one that returns short reads (1 / 1-7 / 1-4096 bytes per call); reference and "
                  "64-bit-header encodings that the decoder accepts re-encode to a fixpoint; to_json/summary do not panic. distinct = (box type, shape); "
                  "non-trivial = some optional/variable part present."),
         "assumptions": [
@@ -207,7 +209,7 @@ PROPS = {
         "profiles": ["chk"],
         "death_is_violation": True,
         "min_evals": {"quick": 650000, "thorough": 13000000},
-        "rule": ("same box/shape/value space as C04; every case is produced as an abstract field list from which the library value and the reference "
+        "rule": ("same box/shape/value space as C04 (scale mode included); every case is produced as an abstract field list from which the library value and the reference "
                  "bytes (independent encoder harness/src/refenc.rs, DESIGN Appendix A) derive. Checks: write_box(value) equals the reference bytes "
                  "(item-list children compared as a multiset); the reference bytes, their 64-bit-header form, sample entries with a random compressor name, "
                  "hvcC with reserved bits set decode to the same value and leave the stream at the box end. In addition esds boxes over the whole "
@@ -235,7 +237,7 @@ PROPS = {
                  "versions, flags, counts, lengths, offsets, values; all of them in thorough; in quick a 2000-per-seed sample plus the extremes 0 / max-1 / max "
                  "of EVERY field), directed size+count pairs (every count field together with the sizes of its 1..3 innermost enclosing boxes raised to "
                  "~2^24 / 2^31 / 2^32), pairwise substitution of near-by fields, byte-level havoc (flips, runs, deletes, duplicates, splices of two seeds, "
-                 "truncation, fourcc swaps), 16 amplifier families, and 16 000 (thorough 200 000) freshly generated plain and fragmented movies, each as a "
+                 "truncation, fourcc swaps), 17 amplifier families, and 16 000 (thorough 200 000) freshly generated plain and fragmented movies, each as a "
                  "file, as media segment against its own initialisation segment, and with one havoc variant. Every input is opened (read_header, and read_fragment_header against three opened initialisation segments) and, when it "
                  "opens, every accessor is called: movie and track accessors, metadata, to_json/summary/box_size of every parsed box, sample_count, "
                  "sample_offset and read_sample for ids 0..16, count-1..count+2, 2^31, 2^32-1 and track ids 0 / present / max+1. A panic hook records "
@@ -257,7 +259,7 @@ PROPS = {
         "rule": ("the C06 corpus and mutators under an instrumented stream: per call (open, open-as-fragment, each sample read / accessor group) at "
                  "most 4000 + 16 n stream operations and 1 MiB + 16 n transferred bytes (n = input length; the stream returns an error when exceeded, "
                  "so a reader that loops without consuming input terminates with evidence) and at most 50 ms + 2 us x n thread CPU time, counted only "
-                 "if the minimum over three runs exceeds it; 16 amplifier families (zero-size child in moov/trak/stbl/udta/moof, sub-header-size boxes "
+                 "if the minimum over three runs exceeds it; 17 amplifier families (many tracks x many movie fragments, zero-size child in moov/trak/stbl/udta/moof, sub-header-size boxes "
                  "at top level and inside moov, many traks whose parameter-set lengths reach the end of the file, counts of 2^32-1 without payload, "
                  "runs declaring 2^32-1 samples without fields, nested overrun chains, many rewinding meta boxes, many emsg, many sample entries whose "
                  "descriptor chain overruns into the following ones, many track fragments with long runs) are emitted at sizes n, 2n, 4n, 8n; between "
